@@ -547,7 +547,12 @@ class SAMIWriter(BaseWriter):
             # the semicolon, so that 'es' is not taken for declared because
             # 'est' is
             lang_string = f'lang: {lang};'
-            if lang_string not in stylesheet:
+            # a paragraph whose own class declares no language is labelled
+            # with the language code itself: that class has to exist then
+            labels_paragraphs = f'.{lang} {{' not in stylesheet and any(
+                self._recreate_p_lang(caption, lang, caption_set) == lang
+                for caption in caption_set.get_captions(lang))
+            if lang_string not in stylesheet or labels_paragraphs:
                 stylesheet += self._recreate_style_block(
                     lang, {'lang': lang}, caption_set.get_layout_info(lang))
 
